@@ -25,6 +25,16 @@ func init() {
 	Registry["C06"] = C06
 	children["race-translate"] = raceTranslateChild
 	c06Pkgs["failcat"] = map[string]string{"c.go": c06FailCat()}
+	// more packages of the iface kind (state shared between workers is most exposed while every worker does the same)
+	for k := 3; k <= 8; k++ {
+		src := c06Pkgs["iface1"]["i.go"]
+		if k%2 == 0 {
+			src = c06Pkgs["iface2"]["j.go"]
+		}
+		name := fmt.Sprintf("iface%d", k)
+		src = strings.Replace(strings.Replace(src, "package iface1\n", "package "+name+"\n", 1), "package iface2\n", "package "+name+"\n", 1)
+		c06Pkgs[name] = map[string]string{"k.go": src}
+	}
 }
 
 // c06FailCat: one package holding every catalogue construct the pinned translator rejects (and the far-outside ones):
@@ -291,7 +301,10 @@ func C06(c *ev.Ctx) {
 	c.Set("distinct_nontrivial", run-len(names))
 	c.Set("rule", "runs = in-process translations: every package alone (reference), seeded pattern subsets/orders under GOMAXPROCS 1/2/3/4/16, and hook-forced worker schedules from Workers.tla; non-trivial = runs with at least two packages")
 	c.Sample(map[string]any{"events": evs[:min(6, len(evs))]})
-	raceChild(c, "race-translate", "goose-lang/goose")
+	// process-wide state is most exposed the FIRST time it is used: three fresh processes
+	for i := 0; i < 3 && c.NViolations() == 0; i++ {
+		raceChild(c, "race-translate", "goose-lang/goose")
+	}
 }
 
 func runGooseCLI(c *ev.Ctx, root, out string, pats ...string) (string, int) {
